@@ -518,7 +518,7 @@ def trip_count(ivars, guard):
     return None
 
 
-def storage_root(cx, func, node, depth=0):
+def storage_root(cx, func, node, depth=0, _visiting=None):
     """Name of the local/parameter that owns the storage an expression points into or selects from: follows subscripts,
     member selection, * and &, pointer arithmetic, single-definition locals, and walking pointers (locals whose every
     value is derived from one root, apart from stepping themselves).  None if undetermined."""
@@ -527,22 +527,29 @@ def storage_root(cx, func, node, depth=0):
     n = strip(node, casts=True)
     k = n["kind"]
     if k in ("ArraySubscriptExpr", "MemberExpr"):
-        return storage_root(cx, func, kids(n)[0], depth + 1)
+        return storage_root(cx, func, kids(n)[0], depth + 1, _visiting)
     if k == "UnaryOperator" and n.get("opcode") in ("*", "&", "++", "--"):
-        return storage_root(cx, func, kids(n)[0], depth + 1)
+        return storage_root(cx, func, kids(n)[0], depth + 1, _visiting)
     if k == "BinaryOperator" and n.get("opcode") in ("+", "-"):
-        return storage_root(cx, func, kids(n)[0], depth + 1)
+        return storage_root(cx, func, kids(n)[0], depth + 1, _visiting)
     if k == "DeclRefExpr":
         rid = n["ref"]["id"]
         if n["ref"].get("kind") == "ParmVarDecl":
             return n["ref"]["name"]
+        t_ = (n["ref"].get("type") or n.get("type") or "")
+        if "*" not in t_ and (t_.replace("const ", "").startswith(("struct ", "union ")) or "[" in t_):
+            return n["ref"]["name"]          # a record or array local owns its storage (it may be a copy of something)
         d = cx.single_def(rid)
         if d is not None:
             d0 = strip(d, casts=True)
             if d0["kind"] == "CallExpr":
                 return n["ref"]["name"]
-            return storage_root(cx, func, d, depth + 1)
+            return storage_root(cx, func, d, depth + 1, _visiting)
         # a walking pointer / re-assigned local: all its sources must agree
+        _visiting = set(_visiting or ())
+        if rid in _visiting:
+            return n["ref"]["name"]          # reached again through its own stepping: itself
+        _visiting.add(rid)
         roots = set()
         srcs = []
         if cx.inits.get(rid) is not None:
@@ -556,7 +563,7 @@ def storage_root(cx, func, node, depth=0):
             if s0["kind"] == "CallExpr":
                 roots.add(n["ref"]["name"])
                 continue
-            rr = storage_root(cx, func, sx, depth + 1)
+            rr = storage_root(cx, func, sx, depth + 1, _visiting)
             if rr == n["ref"]["name"]:
                 continue
             roots.add(rr)
